@@ -590,7 +590,7 @@ func simplifyFlows(p *Plan) []*Plan {
 func init() {
 	register(&Profile{
 		ID: "C17", Name: "flows", Level: "exploration",
-		Rule: "histories of 4-14 actions over {start flow at URL u (<=3 pending, 1-2 browsers, 1-2 deployments http/https, redirect/POST binding, custom relay-state function, RSA/ECDSA key), foreign IdP answers flow k for user x (or unsolicited), deliver response with jar policy in {faithful, subset, other-flow-only, none, renamed, swapped, expired-kept, forged, session-token-as-tracking-cookie, other browser's jar} and RelayState in {echoed, other flow's, absent, arbitrary URL}, replay, advance clock around the tracking lifetime (= MaxIssueDelay knob), visit protected page}; one run in five is fault-free; non-trivial = at least one delivery with an unfaithful jar/RelayState/browser or a replay; distinct = distinct abstract log",
+		Rule: "histories of 4-14 actions over {start flow at URL u (<=3 pending, 1-2 browsers, 1-2 deployments http/https, redirect/POST binding, custom relay-state function, RSA/ECDSA key), foreign IdP answers flow k for user x (or unsolicited), deliver response with jar policy in {faithful, subset, other-flow-only, none, renamed, swapped, expired-kept, forged, session-token-as-tracking-cookie, other browser's jar} and RelayState in {echoed, other flow's, absent, arbitrary URL}, replay, advance clock around the tracking lifetime (= MaxIssueDelay knob), visit protected page}; one run in five is fault-free; non-trivial = at least one delivery with an unfaithful jar/RelayState/browser or a replay; distinct = distinct abstract log; start URLs include percent-encoded structural characters in the path; targeted tails: (a) completed login, then an unsolicited response with the session token re-filed as a tracking cookie, (b) the ACS sees and refuses the tracking cookie early, the IdP answers after the lifetime and the stale cookie is still presented; clearing any tracking cookie other than the one named by the RelayState is a violation",
 		Gen:  genFlows, Exec: execFlows, Simplify: simplifyFlows,
 		RunsQuick: 2500, RunsThorough: 250000,
 		Assumptions: []string{"a presented cookie is authentic for flow i iff it carries exactly the value the SP minted for flow i under exactly that name (harness bookkeeping, no token decoding in the oracle)", "tracking age within +-2 s of the lifetime is a declared don't-care (JWT instants are whole seconds)", "the sufficient direction (must accept) is asserted only for faithful jar + echoed RelayState in the originating browser, as the statement does", "tracking lifetime is taken from saml.MaxIssueDelay as drawn for the run, not from the tracker's own field"},
